@@ -830,7 +830,8 @@ class FnBase:
                     err('%s: `%s` on %s' % (self.what, op, t))
                 return '(%s %s %s)' % (l, '&&&' if op == '&' else '|||', r), t
             if op in ('+', '-', '/', '%', '*'):
-                if t in ('U32', 'U8'):
+                if t in ('U32', 'U8') and op not in ('/', '%'):
+                    # u32 / u8 values are `Nat`s: `+ - *` could leave the type (overflow), `/` and `%` cannot
                     err('%s: %s arithmetic is not supported' % (self.what, t.lower()))
                 return '(%s %s %s)' % (l, op, r), t
             err('%s: operator `%s` is not supported' % (self.what, op))
@@ -1148,7 +1149,7 @@ class FnBase:
             t, ty = self.ex(hi, env)
             if ty in ('U64', 'U128'):
                 cnt = '%s.toNat' % t
-            elif ty == 'USZ':
+            elif ty in ('USZ', 'U32', 'U8'):       # modelled as `Nat`
                 cnt = t
             else:
                 err('%s: loop bound of type %s' % (self.what, ty))
